@@ -5,7 +5,9 @@
    group's support and carries it (or the empty support when it has no sample); restrict_entry s e =
    the entry e with its member restricted to s; supplied data sup es = es are the supplied members,
    keys converted to integers, in increasing key order, before any restriction; farl x l = x is
-   farther than 1 us from every endpoint of the sets of l. *)
+   farther than 1 us from every endpoint of the sets of l (only needed by the pre-repair statements).
+   Where the statement's clause is false of the model because the library behaves so, an explicit
+   _refuted witness stands next to the conditional theorem. *)
 From Verif Require Import Base.Prelude Model.Restrict Model.Iset Model.Count Model.Slice Model.ValueFrom Model.Group
   Proofs.C02Top Proofs.GroupProofs.
 From Coq Require Import Permutation.
@@ -40,8 +42,8 @@ Theorem C12_support_given : forall data s bypass ht g,
 Proof. exact group_support_given. Qed.
 Print Assumptions C12_support_given.
 
-(* exact for >= 3 members (n-ary kernel); for 2 members at every instant farther than 1 us from the
-   endpoints (where two supports touch the constructor trims 1 us); 1 member: its own support *)
+(* the statement that was provable before the repair of _union_intervals (kept; C12_support_union_exact
+   below is the clause as it reads) *)
 Theorem C12_support_union : forall data bypass ht g,
   mk_group data None bypass ht = Some g ->
   Forall (fun d => raw_wf None (snd (snd d))) data ->
@@ -53,6 +55,32 @@ Theorem C12_support_union : forall data bypass ht g,
     /\ ((3 <= length es)%nat -> forall x, mem x (g_sup g) = existsb (fun e => mem x (m_sup (e_mem e))) es).
 Proof. exact group_support_union. Qed.
 Print Assumptions C12_support_union.
+
+(* EXACT: at every instant, for any number of members *)
+Theorem C12_support_union_exact : forall data bypass ht g,
+  mk_group data None bypass ht = Some g ->
+  Forall (fun d => raw_wf None (snd (snd d))) data ->
+  exists es, supplied data None es
+    /\ g_sup g <> [] /\ canonical (g_sup g)
+    /\ forall x, mem x (g_sup g) = existsb (fun e => mem x (m_sup (e_mem e))) es.
+Proof. exact group_support_union_exact. Qed.
+Print Assumptions C12_support_union_exact.
+
+(* _union_intervals as it was (union_supports_orig: the pairwise kernel for exactly two members, which
+   keeps touching supports apart, after which the constructor trims 1 us): the supports [0, 4 ms] and
+   [4 ms, 8 ms] gave a group support without the instant 3.9995 ms, and a sample there was dropped from
+   the first member.  Repaired in /repo ("TsGroup of exactly two members used the pairwise union kernel"). *)
+Theorem C12_support_union_orig_refuted :
+  exists a b x, canonical a /\ canonical b /\ mem x a = true
+    /\ mem x (union_supports_orig [a; b]) = false /\ mem x (union_supports [a; b]) = true
+    /\ m_t (ts_restrict ([x], a) (union_supports_orig [a; b])) = []
+    /\ m_t (ts_restrict ([x], a) (union_supports [a; b])) = [x].
+Proof. exact union_supports_orig_refuted. Qed.
+Print Assumptions C12_support_union_orig_refuted.
+
+Theorem C12_support_union_orig_elsewhere : forall l, length l <> 2%nat -> union_supports_orig l = union_supports l.
+Proof. exact union_supports_orig_other. Qed.
+Print Assumptions C12_support_union_orig_elsewhere.
 
 (* ---- 3. members restricted to the support, unless the caller opts out ---- *)
 Theorem C12_members : forall data sup bypass ht g,
@@ -89,6 +117,26 @@ Theorem C12_rate : forall g e,
 Proof. exact group_rate. Qed.
 Print Assumptions C12_rate.
 
+(* the rate clause carries no exemption in the statement, but it is FALSE of a group whose caller opted
+   out of the restriction with members that do not carry the group's support (the rate is the
+   member's own: len / duration of the member's support): member [0; 1 us; 2 us] on its own support
+   [0, 2 us] in a group on [0, 10 us] has rate 3 / 2 us, not 3 / 10 us.  Reported by the harness as a
+   known finding (part = rate, member_support_is_group_support = false). *)
+Theorem C12_rate_optout_refuted :
+  exists data s g e, mk_group data (Some s) true false = Some g /\ canonical s
+    /\ Forall (fun d => raw_wf (Some s) (snd (snd d))) data
+    /\ In e (g_entries g) /\ m_t (e_mem e) <> []
+    /\ rate (e_mem e) = Some (3%nat, 2000)
+    /\ rate (e_mem e) <> Some (length (m_t (e_mem e)), tot_length (g_sup g)).
+Proof.
+  exists [(RInt 0, (0, RObj ([0; 1000; 2000], [(0, 2000)])))], [(0, 10000)].
+  eexists. eexists. split; [vm_compute; reflexivity|].
+  split; [simpl; lia|].
+  split; [repeat constructor; simpl; lia|].
+  split; [left; reflexivity|]. split; [discriminate|]. split; [vm_compute; reflexivity|vm_compute; discriminate].
+Qed.
+Print Assumptions C12_rate_optout_refuted.
+
 (* ---- 5. selection preserves each member under its key ---- *)
 Theorem C12_select_keys : forall g keys g',
   WFg g -> select_keys g keys = Some g' ->
@@ -110,6 +158,23 @@ Theorem C12_select_total : forall g keys,
   NoDup keys -> (forall k, In k keys -> In k (g_keys g)) -> exists g', select_keys g keys = Some g'.
 Proof. exact select_keys_total. Qed.
 Print Assumptions C12_select_total.
+
+(* without Rg (a group whose caller opted out of the restriction, with a sample outside the group's
+   support) selection does NOT preserve the member: it is restricted again.  Member [0; 5 us] in a group
+   on [1 us, 9 us], built with the opt-out, comes back from g[[0]] as [5 us].  Reported by the harness as
+   a known finding (bypass_group_member_outside_support = true). *)
+Theorem C12_select_optout_refuted :
+  exists data s g g', mk_group data (Some s) true false = Some g /\ WFg g
+    /\ select_keys g [0] = Some g'
+    /\ map (fun e => m_t (e_mem e)) (g_entries g) = [[0; 5000]]
+    /\ map (fun e => m_t (e_mem e)) (g_entries g') = [[5000]].
+Proof.
+  exists [(RInt 0, (0, RObj ([0; 5000], [(0, 6000)])))], [(1000, 9000)].
+  eexists. eexists. split; [vm_compute; reflexivity|].
+  split; [unfold WFg; simpl; repeat split; try lia; repeat constructor; simpl; lia|].
+  split; [vm_compute; reflexivity|]. split; reflexivity.
+Qed.
+Print Assumptions C12_select_optout_refuted.
 
 Theorem C12_select_mask : forall g mask g',
   select_mask g mask = Some g' ->
@@ -193,6 +258,40 @@ Theorem C12_merge_preserves : forall gs im g',
 Proof. exact merge_group_preserves. Qed.
 Print Assumptions C12_merge_preserves.
 
+(* EXACT, support kept: no hypothesis on the supports - merge_group (as repaired) accepts only groups
+   that carry the same support *)
+Theorem C12_merge_preserves_exact : forall gs im g',
+  (2 <= length gs)%nat -> Forall WFg gs -> Forall Rg gs ->
+  merge_group gs false false im = Some g' ->
+  incr (g_keys g') /\ Forall (fun g => g_sup g = g_sup g') gs
+  /\ (forall e, In e (g_entries g') <-> exists g, In g gs /\ In e (g_entries g)).
+Proof. exact merge_group_preserves_exact. Qed.
+Print Assumptions C12_merge_preserves_exact.
+
+(* EXACT, support reset: the new support is the union of the members' supports at every instant, and
+   every member keeps all its timestamps under its key (renumbered when the index is reset) *)
+Theorem C12_merge_reset_preserves : forall gs ri im g',
+  (2 <= length gs)%nat -> Forall WFg gs -> Forall Rg gs ->
+  merge_group gs ri true im = Some g' ->
+  (forall x, mem x (g_sup g') = existsb (fun e => mem x (m_sup (e_mem e))) (merge_items gs ri))
+  /\ (forall e', In e' (g_entries g') <->
+                 exists e, In e (merge_items gs ri) /\ e' = restrict_entry (g_sup g') e)
+  /\ (forall e, In e (merge_items gs ri) -> m_t (e_mem (restrict_entry (g_sup g') e)) = m_t (e_mem e)).
+Proof. exact merge_group_reset_preserves. Qed.
+Print Assumptions C12_merge_reset_preserves.
+
+(* merge_group before its second repair (merge_group_lax): an empty support compared equal to a
+   one-interval support (np.allclose broadcast), and the first group's empty support emptied every
+   member.  Repaired in /repo ("merge_group accepted an empty time support against a one-interval support"). *)
+Theorem C12_merge_lax_refuted :
+  exists g1 g2, WFg g1 /\ Rg g1 /\ WFg g2 /\ Rg g2 /\ g_sup g1 <> g_sup g2
+    /\ (exists e, In e (g_entries g2) /\ m_t (e_mem e) <> [])
+    /\ (exists g', merge_group_lax [g1; g2] false false true = Some g'
+                   /\ g_keys g' = [0; 1] /\ Forall (fun e => m_t (e_mem e) = []) (g_entries g'))
+    /\ merge_group [g1; g2] false false true = None.
+Proof. exact merge_lax_refuted. Qed.
+Print Assumptions C12_merge_lax_refuted.
+
 Theorem C12_merge_defined : forall g1 g2 im,
   WFg g1 -> WFg g2 -> (im = true \/ g_hastag g1 = g_hastag g2) -> g_sup g1 = g_sup g2 ->
   NoDup (g_keys g1 ++ g_keys g2) ->
@@ -200,7 +299,7 @@ Theorem C12_merge_defined : forall g1 g2 im,
 Proof. exact merge_two_defined. Qed.
 Print Assumptions C12_merge_defined.
 
-(* merge_group as it was at the pinned commit (merge_group_orig): with the metadata kept (the default)
+(* merge_group before its first repair (merge_group_orig): with the metadata kept (the default)
    and the index not reset it FAILED when the concatenated keys were not already increasing: keys {5}
    merged with keys {0}, same support, disjoint keys -> ValueError; the other order worked.  Repaired
    in /repo ("merge_group failed on interleaved keys"); the repaired model accepts the witness, and
